@@ -383,13 +383,16 @@ fn bump_chain(b: &'static Bump, obs: &mut Obs, fam: u8, build: u8, steps: u16, t
         pin_rt = bpin,
         slice = |build: u8, w: u8| -> BBox<'static, [D]> {
             use bumpalo::collections::CollectIn;
-            match build {
+            let bx = match build {
                 0 => { let mut v = BVec::new_in(b); for d in mk3(w) { v.push(d); } v.into_boxed_slice() }
                 1 => BBox::from_iter_in(mk3(w), b),
                 2 => mk3(w).into_iter().collect_in::<BBox<'static, [D]>>(b),
                 3 => { let a: BBox<'static, [D; 3]> = BBox::new_in(mk3(w), b); a.into() }
                 _ => { let mut v = BVec::with_capacity_in(8, b); for d in mk3(w) { v.push(d); } BBox::from(v) }
-            }
+            };
+            // the arena is used again right after the conversion (an initialised slice): the box must keep its values
+            let _filler = b.alloc_slice_fill_copy(96, 0xEEu8);
+            bx
         },
         arr_to_slice = |a: BBox<'static, [D; 3]>| -> BBox<'static, [D]> { a.into() },
         slice_to_arr2 = |s: BBox<'static, [D]>| -> Result<BBox<'static, [D; 2]>, BBox<'static, [D]>> { BBox::<[D; 2]>::try_from(s) },
